@@ -44,7 +44,8 @@ import (
 const (
 	faultT     = 200 * time.Millisecond // request time-out configured for the adaptation
 	faultSlack = 1500 * time.Millisecond
-	stallKiB   = 512 // annotation size of the request sent to a peer that stopped reading
+	faultWedge = 8 * time.Second // a request of the fault driver still blocked after this (40 time-outs, ~4 x the bound) is a deadlock
+	stallKiB   = 512             // annotation size of the request sent to a peer that stopped reading
 )
 
 type fPlugin struct {
@@ -81,6 +82,7 @@ type faultCase struct {
 	Obs2          fObs              `json:"obs2"`
 	FaultyAfter   bool              `json:"faulty_handled_after"`
 	ClockSuspect  bool              `json:"clock_suspect,omitempty"`   // a healthy plugin's call ran into the 200 ms time-out: load, re-run alone
+	Wedged        bool              `json:"wedged,omitempty"`          // a request never returned: the adaptation is blocked for good
 	ReleasedByCut bool              `json:"released_by_cut,omitempty"` // stall: the request returned only after the harness cut the connection
 	BoundMs       int64             `json:"bound_ms,omitempty"`
 	Reruns        int               `json:"latency_reruns,omitempty"`
@@ -193,7 +195,7 @@ func runFault(c *hx.Ctx, n int, sp faultSpec) (*faultCase, error) {
 	if err != nil {
 		return nil, err
 	}
-	defer e.close()
+	defer e.closeWithin(5 * time.Second)
 	cs := &faultCase{Stream: "faults", N: n, Faulty: sp.pos + 1, Ev: int(sp.ev), Kind: sp.kind,
 		TMs: faultT.Milliseconds(), SlackMs: faultSlack.Milliseconds()}
 	var (
@@ -246,7 +248,7 @@ func runFault(c *hx.Ctx, n int, sp faultSpec) (*faultCase, error) {
 			return nil, err
 		}
 	}
-	res0 := e.fire(mkRequest(1, sp.ev))
+	res0, _ := e.fireWithin(mkRequest(1, sp.ev), faultWedge)
 	want := ""
 	if hasResponse(int(sp.ev)) {
 		want = "A,B,C"
@@ -338,7 +340,18 @@ func runFault(c *hx.Ctx, n int, sp faultSpec) (*faultCase, error) {
 		cs.What = fmt.Sprintf("the plugin's peer stops reading its socket; the request carries %d KiB of annotations (more than the socket buffers hold)", stallKiB)
 	case "hang":
 		cs.Fault = "hang"
-		if sp.variant == "ctx" {
+		if sp.variant == "reentrant" {
+			// the handler issues an unsolicited update and waits for its result before answering: the update
+			// needs the adaptation lock its own request holds, so the handler hangs until the time-out drops it
+			upd := []*api.ContainerUpdate{{ContainerId: "reentrant", Linux: &api.LinuxContainerUpdate{Resources: &api.LinuxResources{Cpu: &api.LinuxCPU{Shares: api.UInt64(uint64(7))}}}}}
+			faulty.setDecide(func(rq request) action {
+				if ridOf(rq.Pod, rq.Ctr) == 2 {
+					return action{Before: func() { faulty.st.UpdateContainers(upd) }}
+				}
+				return action{}
+			})
+			cs.What = "handler issues an unsolicited update and waits for it before answering (re-entrant)"
+		} else if sp.variant == "ctx" {
 			faulty.setDecide(func(rq request) action {
 				if ridOf(rq.Pod, rq.Ctr) == 2 {
 					return action{WaitCtx: true}
@@ -399,7 +412,16 @@ func runFault(c *hx.Ctx, n int, sp faultSpec) (*faultCase, error) {
 		}
 		res1.Dur = time.Since(t0)
 	} else {
-		res1 = e.fire(mkRequest(2, sp.ev))
+		var returned bool
+		if res1, returned = e.fireWithin(mkRequest(2, sp.ev), faultWedge); !returned {
+			// the request is blocked for good (a deadlock): nothing more can be asked of this adaptation
+			cs.Wedged = true
+			cs.LatMs = res1.Dur.Milliseconds()
+			cs.Obs = mkObs(res1, handledIn(plugs, 2))
+			cs.Call, cs.ExtraCalls = pickCall(e.takeCallErrs(), method)
+			cs.Obs2 = fObs{Err: "not issued: the adaptation is blocked", Nil: true, Tokens: []string{}, Handled: []int{}}
+			return cs, nil
+		}
 	}
 	cs.LatMs = res1.Dur.Milliseconds()
 	cs.Obs = mkObs(res1, handledIn(plugs, 2))
@@ -435,7 +457,10 @@ func runFault(c *hx.Ctx, n int, sp faultSpec) (*faultCase, error) {
 
 	// ---- the follow-up request
 	faulty.setDecide(nil)
-	res2 := e.fire(mkRequest(3, sp.ev))
+	res2, returned2 := e.fireWithin(mkRequest(3, sp.ev), faultWedge)
+	if !returned2 {
+		cs.Wedged = true
+	}
 	h2 := handledIn(plugs, 3)
 	cs.Obs2 = mkObs(res2, h2)
 	calls2 := e.takeCallErrs()
@@ -526,6 +551,13 @@ func faultOracle(cs *faultCase) (string, bool) {
 	eqI := func(a, b []int) bool { return fmt.Sprint(a) == fmt.Sprint(b) || (len(a) == 0 && len(b) == 0) }
 	eqS := func(a, b []string) bool { return strings.Join(a, ",") == strings.Join(b, ",") }
 	o, o2 := cs.Obs, cs.Obs2
+	if cs.Wedged {
+		which := "the faulted request"
+		if !strings.Contains(o.Err, "is blocked") {
+			which = "the request after the faulted one"
+		}
+		return fmt.Sprintf("%s had not returned after %v (the bound is %d x %d ms + %d ms): the runtime is deadlocked", which, faultWedge, len(cs.Plugins), cs.TMs, cs.SlackMs), false
+	}
 	if cs.Fault == "veto" {
 		switch {
 		case o.Err == "":
@@ -624,7 +656,7 @@ func measureTotals(c *hx.Ctx, ev api.Event, pos int) ([2]int, error) {
 	if err != nil {
 		return [2]int{}, err
 	}
-	defer e.close()
+	defer e.closeWithin(5 * time.Second)
 	var plugs []*plug
 	var px *proxy
 	defer func() {
@@ -758,6 +790,7 @@ func driveFaults(c *hx.Ctx) error {
 			}
 			specs = append(specs, faultSpec{ev: ev, pos: pos, kind: "hang", variant: "sleep"})
 			specs = append(specs, faultSpec{ev: ev, pos: pos, kind: "hang", variant: "ctx"})
+			specs = append(specs, faultSpec{ev: ev, pos: pos, kind: "hang", variant: "reentrant"})
 			specs = append(specs, faultSpec{ev: ev, pos: pos, kind: "veto"})
 			if c.Quick() {
 				// one further kind of handler error per (entry point, position), each kind several times over the run
@@ -954,6 +987,6 @@ func driveFaults(c *hx.Ctx) error {
 		}
 	}
 	c.Stats.Exhaustive = !c.Quick()
-	c.Stats.Rule = "faults: per case a fresh Adaptation (request time-out 200 ms) with plugins 10-A, 20-B, 30-C; for each of the thirteen entry points x each position of the faulty plugin: trunk cut by the frame-parsing proxy after n bytes in either direction (quick: n in {0,1,7,8,9,17,18,19,end-1,end} = the boundaries of the multiplexer header, the ttrpc header and the message, +-1; thorough: every n of the exchange), trunk ending in the middle of a frame (injected partial frame) at the start/end of the request or while idle, peer close before (unnoticed / noticed / orderly stop), inside the handler and right after the call, handler sleeping 2.5 x the time-out or returning its expired context's error, handler returning an error; peer that stops reading while a 512 KiB request is written (recovered by cutting the connection after the bound); each case = probe + faulted + follow-up request; handler errors of ten kinds (errors.New, wrapped, os.ErrInvalid, status errors of seven codes, a wrapped status) — each must veto and leave the plugin registered. regfail: plugins A and C registered, a third one fails in its Synchronize call (error / no answer within the time-out / disconnect); then, each with a bounded wait, a request inside BlockPluginSync()/Unblock(), the registration of a further plugin D and a second request that must reach A, C, D. Every case is non-trivial."
+	c.Stats.Rule = "faults: per case a fresh Adaptation (request time-out 200 ms) with plugins 10-A, 20-B, 30-C; for each of the thirteen entry points x each position of the faulty plugin: trunk cut by the frame-parsing proxy after n bytes in either direction (quick: n in {0,1,7,8,9,17,18,19,end-1,end} = the boundaries of the multiplexer header, the ttrpc header and the message, +-1; thorough: every n of the exchange), trunk ending in the middle of a frame (injected partial frame) at the start/end of the request or while idle, peer close before (unnoticed / noticed / orderly stop), inside the handler and right after the call, handler sleeping 2.5 x the time-out, returning its expired context's error, or issuing an unsolicited update and waiting for it inside the handler (re-entrant), handler returning an error; peer that stops reading while a 512 KiB request is written (recovered by cutting the connection after the bound); each case = probe + faulted + follow-up request; handler errors of ten kinds (errors.New, wrapped, os.ErrInvalid, status errors of seven codes, a wrapped status) — each must veto and leave the plugin registered. regfail: plugins A and C registered, a third one fails in its Synchronize call (error / no answer within the time-out / disconnect); then, each with a bounded wait, a request inside BlockPluginSync()/Unblock(), the registration of a further plugin D and a second request that must reach A, C, D. Every case is non-trivial."
 	return nil
 }
